@@ -51,6 +51,7 @@ def classify(roles, f, unit, restrict, v1, v2, to_string_key, str_to_number_key,
     facts = roles.facts
     calls = []
     cmps = []
+    casts = []
     for b in unit:
         bl = restrict.get(b.key, set())
         for bi in sorted(bl):
@@ -60,6 +61,8 @@ def classify(roles, f, unit, restrict, v1, v2, to_string_key, str_to_number_key,
             for si, s in enumerate(b.blocks[bi]["stmts"]):
                 if s["k"] == "Assign" and s["rv"]["k"] == "BinaryOp" and s["rv"]["op"] in ("Eq", "Ne", "Lt", "Le", "Gt", "Ge"):
                     cmps.append((b, bi, si, s["rv"]))
+                if s["k"] == "Assign" and s["rv"]["k"] == "Cast" and s["rv"].get("cast") in ("FloatToInt", "IntToFloat"):
+                    casts.append(s["rv"]["cast"])
     blocks = restrict[f.key]
     with f.restricted(blocks):
         r = strip_refs(f.trace(0))
@@ -108,7 +111,7 @@ def classify(roles, f, unit, restrict, v1, v2, to_string_key, str_to_number_key,
     s2n = [x for x in calls if str_to_number_key and x[3].get("key") == str_to_number_key]
     streq = [x for x in calls if re.search(r"PartialEq.*::(eq|ne)$", x[3]["path"]) and re.search(r"String|str", x[3].get("full") or x[3]["path"]) and not re.search(r"serde_json::(Number|Value) as", x[3]["path"])]
     booleq = [c for c in cmps if c[3].get("opty") == "bool"] + [x for x in calls if re.search(r"PartialEq.*::(eq|ne)$", x[3]["path"]) and "bool" in (x[3].get("full") or "")]
-    o.detail.update({"ne_calls": [x[3]["path"] for x in calls if re.search(r"PartialEq.*::ne$", x[3]["path"])], "int_accessors": [x[3]["path"] for x in int_acc], "value_eq": [x[3]["path"] for x in num_eq], "ops": sorted({c[3]["op"] for c in cmps})})
+    o.detail.update({"casts": sorted(casts), "ne_calls": [x[3]["path"] for x in calls if re.search(r"PartialEq.*::ne$", x[3]["path"])], "int_accessors": [x[3]["path"] for x in int_acc], "value_eq": [x[3]["path"] for x in num_eq], "ops": sorted({c[3]["op"] for c in cmps})})
     if num_eq:
         o.kind = "SPELLING-EQ"
     elif int_acc and feq:
